@@ -4,9 +4,9 @@ export VERIF_SCRATCH_EVIDENCE=${VERIF_SCRATCH_EVIDENCE:-/tmp/verif_seed_evidence
 # the checks read — /repo, or $HLS_REPO for a background run on a snapshot — and undone afterwards);
 # writes seeded/diagonal.tsv: seed, check, exit, #VIOLATION, #no-failing-input-found
 V=$(cd "$(dirname "$0")/.." && pwd); R=${HLS_REPO:-/repo}
-out=$V/seeded/diagonal.tsv; log=${DIAG_LOG:-/tmp/diag_logs}; mkdir -p $log
+out=${DIAG_OUT:-$V/seeded/diagonal.tsv}; log=${DIAG_LOG:-/tmp/diag_logs}; mkdir -p $log
 : > $out
-for sdir in $V/seeded/C*/; do
+for sdir in ${SEED_DIRS:-$V/seeded/C*/}; do   # SEED_DIRS="seeded/C01g/ seeded/C02g/" restricts the run
   sid=$(basename $sdir); c=${sid:0:3}
   git -C $R apply $sdir/patch.diff || { echo "$sid apply-failed" >> $out; continue; }
   timeout 1800 $V/check $c --tier quick > $log/diag_$sid.log 2>&1
